@@ -235,7 +235,7 @@ def r3(ctx):
             rep.ok('C07.R3', '%s yy_get_next_buffer: the num_to_read<=0 edge at line %s ends in %s' % (v.name, t.line, fatal[0].callee))
         else:
             wit = cfg.path(tb.ins[0], lambda x: x.op == 'ret' or x is t, include_start=True)
-            if key in rep.vkeys: rep.obl.setdefault('C07.R3', [0, 0])[0] += 1      # same defect in another variant: one report, one more obligation
+            pass      # (Reporter.fail counts a repeated key as one more instance and reports it once)
             rep.fail('C07.R3', key, where(t), 'in a REJECT scanner the "no room in the buffer" edge of yy_get_next_buffer %s [variant %s]' % (
                 'never reaches the fatal hook' if not fatal else 'can continue scanning or return without the fatal error', v.name),
                 witness=['%s:%s' % (x.blk.name, x.line) for x in (wit or [])], variant=v.describe())
